@@ -47,3 +47,48 @@ func harnessTLS() *tls.Config {
 	})
 	return tlsCfg
 }
+
+// namedTLS builds a private CA and three mutually verifying configurations: one
+// whose certificate covers both "localhost" and 127.0.0.1, one for 127.0.0.1 only,
+// one for "localhost" only. No ServerName is set: the dialler derives it from the
+// address, as the library's users do.
+func namedTLS() (both, ipOnly, dnsOnly *tls.Config, err error) {
+	caKey, err := ecdsa.GenerateKey(elliptic.P256(), rand.Reader)
+	if err != nil {
+		return
+	}
+	caT := &x509.Certificate{SerialNumber: big.NewInt(10), Subject: pkix.Name{CommonName: "verif-ca"}, NotBefore: time.Now().Add(-time.Hour), NotAfter: time.Now().Add(24 * time.Hour),
+		IsCA: true, KeyUsage: x509.KeyUsageCertSign | x509.KeyUsageDigitalSignature, BasicConstraintsValid: true}
+	caDER, err := x509.CreateCertificate(rand.Reader, caT, caT, &caKey.PublicKey, caKey)
+	if err != nil {
+		return
+	}
+	caCert, err := x509.ParseCertificate(caDER)
+	if err != nil {
+		return
+	}
+	pool := x509.NewCertPool()
+	pool.AddCert(caCert)
+	mk := func(serial int64, dns []string, ips []net.IP) (*tls.Config, error) {
+		key, err := ecdsa.GenerateKey(elliptic.P256(), rand.Reader)
+		if err != nil {
+			return nil, err
+		}
+		t := &x509.Certificate{SerialNumber: big.NewInt(serial), Subject: pkix.Name{CommonName: "verif-node"}, NotBefore: time.Now().Add(-time.Hour), NotAfter: time.Now().Add(24 * time.Hour),
+			KeyUsage: x509.KeyUsageDigitalSignature, ExtKeyUsage: []x509.ExtKeyUsage{x509.ExtKeyUsageServerAuth, x509.ExtKeyUsageClientAuth}, DNSNames: dns, IPAddresses: ips}
+		der, err := x509.CreateCertificate(rand.Reader, t, caCert, &key.PublicKey, caKey)
+		if err != nil {
+			return nil, err
+		}
+		return &tls.Config{Certificates: []tls.Certificate{{Certificate: [][]byte{der}, PrivateKey: key}}, RootCAs: pool, ClientCAs: pool, ClientAuth: tls.RequireAndVerifyClientCert}, nil
+	}
+	ip := []net.IP{net.ParseIP("127.0.0.1")}
+	if both, err = mk(11, []string{"localhost"}, ip); err != nil {
+		return
+	}
+	if ipOnly, err = mk(12, nil, ip); err != nil {
+		return
+	}
+	dnsOnly, err = mk(13, []string{"localhost"}, nil)
+	return
+}
